@@ -5,13 +5,13 @@ XMC_EVIDENCE_DIR=${XMC_EVIDENCE_DIR:-/tmp/patched_ev}; XMC_REPLAY_DIR=${XMC_REPL
 # Confirms a seeded change independently and runs checks against it:
 #  1. fresh scratch worktree of /repo HEAD under /tmp: demo passes on the original code
 #  2. patch applies; the repository's own test suite passes with it; demo fails with it
-#  3. the patch is applied to /repo, the listed checks (default: the id's own) are run, /repo is restored
+#  3. the listed checks (default: the id's own) are run against that worktree (PYXAB_REPO); /repo is not touched
 # Prints one summary line per step; leaves nothing behind.
 ID="$1"; PATCH="$(realpath "$2")"; DEMO="$(realpath "$3")"; shift 3
 CHECKS="$*"
 WT=/tmp/evalwt_$ID_$$
 git -C /repo worktree add --detach "$WT" HEAD -q || exit 2
-cleanup() { git -C /repo worktree remove --force "$WT" 2>/dev/null; git -C /repo checkout -- . 2>/dev/null; }
+cleanup() { git -C /repo worktree remove --force "$WT" 2>/dev/null; }
 trap cleanup EXIT INT TERM
 cd "$WT" || exit 2
 cp "$DEMO" "$WT/demo.py"
@@ -24,12 +24,10 @@ PYTHONPATH="$WT" timeout 600 /venv/bin/python demo.py >/tmp/evalseed_$$.log 2>&1
 echo "demo on change: exit $D1 ($(tail -1 /tmp/evalseed_$$.log | cut -c1-200))"
 rm -f /tmp/evalseed_$$.log /tmp/evalseed_t_$$.log
 cd /verif || exit 2
-git -C /repo diff --quiet || { echo "/repo dirty"; exit 3; }
-git -C /repo apply "$PATCH" || exit 3
+# the checks are pointed at the scratch worktree (which now carries the change) with PYXAB_REPO: /repo is never touched
 for c in ${CHECKS:-$ID}; do
-  OUT=$(timeout 1500 ./check "$c" --tier quick 2>&1)
+  OUT=$(PYXAB_REPO="$WT" timeout 1500 ./check "$c" --tier quick 2>&1)
   RC=$?
   echo "check $c: exit $RC $(echo "$OUT" | grep -c '^VIOLATION') violation line(s)"
   echo "$OUT" | grep -A2 '^VIOLATION' | head -3 | cut -c1-260
 done
-git -C /repo checkout -- .
